@@ -280,10 +280,14 @@ class build_atomlist:
 
         # Make space group name
         sgtmp = sg.split()
-        sg = ''
-        for i in range(len(sgtmp)):
-            if sgtmp[i] != '1':
-                sg = sg + sgtmp[i].lower()
+        from xfab.sg import sgdic
+        sg = ''.join(sgtmp).lower()
+        if sg not in sgdic:
+            # the '1's are place holders (e.g. 'P 1 21 1'), drop them
+            sg = ''
+            for i in range(len(sgtmp)):
+                if sgtmp[i] != '1':
+                    sg = sg + sgtmp[i].lower()
         self.atomlist.sgname = sg
 
         # Build SCALE matrix for transformation of 
